@@ -19,8 +19,11 @@ Proof. reflexivity. Qed.
 Lemma allowed_iff a : allowed a = true <-> In a spec_allowed.
 Proof. unfold allowed. rewrite allowed_list_eq. apply mem_In. Qed.
 
-Lemma supported_b_iff a : mem a (map fst signer_algs) = true <-> supported a.
+Lemma supported_b_iff a : mem a spec_allowed = true <-> supported a.
 Proof. apply mem_In. Qed.
+
+(* the implementation has a signer for the URI (live table SIGNER_ALGS) *)
+Definition has_signer (a : string) : Prop := In a (map fst signer_algs).
 
 Lemma get_In_fst (l : query) k : get l k <> None <-> In k (map fst l).
 Proof.
@@ -31,9 +34,9 @@ Proof.
     + apply String.eqb_neq in E. rewrite IH. split; [auto|intros [H|H]; [contradiction|exact H]].
 Qed.
 
-Lemma digest_supported a : (exists d, digest_of a = Some d) <-> supported a.
+Lemma digest_has_signer a : (exists d, digest_of a = Some d) <-> has_signer a.
 Proof.
-  unfold digest_of, supported. rewrite <- get_In_fst. destruct (get signer_algs a) as [d|].
+  unfold digest_of, has_signer. rewrite <- get_In_fst. destruct (get signer_algs a) as [d|].
   - split; [discriminate|]. intros _. exists d. reflexivity.
   - split; [intros [d H]; discriminate|congruence].
 Qed.
@@ -43,11 +46,34 @@ Lemma allowed_subset_supported_b :
 Proof. vm_compute. reflexivity. Qed.
 
 (* every allowed algorithm has a signer *)
-Lemma allowed_supported a : allowed a = true -> supported a.
+Lemma allowed_has_signer a : allowed a = true -> has_signer a.
 Proof.
   intros H. apply mem_In in H. pose proof allowed_subset_supported_b as Hs.
   rewrite forallb_forall in Hs. apply mem_In. apply Hs. exact H.
 Qed.
+
+(* ... and (strengthening round 6) NO other URI has one: the live signer table names the five allowed algorithms
+   only.  This is what "an unsupported SigAlg is never treated as verified" rests on in the code: get_signer and
+   the `in SIGNER_ALGS` test of verify_redirect_signature consult this table and nothing else.  Re-checked by
+   computation whenever gen/C15Tables.v is regenerated from the live module. *)
+Lemma signer_subset_allowed_b : forallb (fun a => mem a spec_allowed) (map fst signer_algs) = true.
+Proof. vm_compute. reflexivity. Qed.
+
+Lemma signer_algs_allowed a : has_signer a -> In a spec_allowed.
+Proof.
+  intros H. pose proof signer_subset_allowed_b as Hs. rewrite forallb_forall in Hs. apply mem_In. apply Hs. exact H.
+Qed.
+
+Lemma has_signer_iff_supported a : has_signer a <-> supported a.
+Proof.
+  split; [apply signer_algs_allowed|]. intros H. apply allowed_has_signer. apply allowed_iff. exact H.
+Qed.
+
+Lemma digest_supported a : (exists d, digest_of a = Some d) <-> supported a.
+Proof. rewrite digest_has_signer. apply has_signer_iff_supported. Qed.
+
+Lemma allowed_supported a : allowed a = true -> supported a.
+Proof. intros H. apply allowed_iff. exact H. Qed.
 
 Fixpoint nodup_b (l : list string) : bool :=
   match l with [] => true | x :: r => negb (mem x r) && nodup_b r end.
@@ -67,7 +93,7 @@ Lemma tables_ok :
   /\ NoDup (map fst signer_algs) /\ NoDup (map snd signer_algs).
 Proof.
   split; [intros a; rewrite allowed_list_eq; tauto|].
-  split; [intros a Ha; apply mem_In in Ha; apply (allowed_supported a); exact Ha|].
+  split; [intros a Ha; apply mem_In in Ha; apply (allowed_has_signer a); exact Ha|].
   split; [reflexivity|]. split; [reflexivity|].
   split; apply nodup_b_NoDup; vm_compute; reflexivity.
 Qed.
@@ -751,6 +777,40 @@ Section Proofs.
     destruct (in_readable _ _ _ Hin) as [H'|[_ H']]; [exact H'|]. exfalso. exact (Hna _ H' eq_refl).
   Qed.
 
+  (* ---------------------------------------------------------------- the allow-list on the VERIFYING side
+     (strengthening round 6).  Whatever the certificate argument, whoever signed and however genuine the signature
+     is for the algorithm named: nothing verifies, and no request is accepted, under a SigAlg outside the five
+     allowed ones.  No assumption on the signature scheme is needed. *)
+  Lemma verified_alg_allowed own q ca :
+    vrsc own q ca = VTrue -> exists a, get q K_ALG = Some a /\ In a spec_allowed.
+  Proof.
+    intros H. destruct (get q K_ALG) as [a|] eqn:Ea.
+    - exists a. split; [reflexivity|]. destruct (mem a spec_allowed) eqn:Em; [apply mem_In; exact Em|].
+      exfalso. assert (Hn : ~ supported a) by (intros Hs; apply mem_In in Hs; congruence).
+      rewrite (unsupported_not_verified_c own q ca a Ea Hn) in H. discriminate.
+    - exfalso. destruct ca as [|c|]; cbn [verify_redirect_signature_c] in H;
+        rewrite ?vrs_char, ?vrsg_char, Ea in H; discriminate.
+  Qed.
+
+  Lemma check_c_alg_allowed own certs q :
+    do_redirect_sig_check_c cert_of verify own certs q = Some true ->
+    exists a, get q K_ALG = Some a /\ In a spec_allowed.
+  Proof.
+    induction certs as [|ca r IH]; cbn [do_redirect_sig_check_c]; [discriminate|].
+    destruct (vrsc own q ca) eqn:E; try discriminate; try exact IH.
+    intros _. exact (verified_alg_allowed own q ca E).
+  Qed.
+
+  Lemma request_alg_allowed own certs origdoc rs sigalg signature :
+    loads_redirect_c cert_of verify own certs true origdoc rs sigalg signature = true ->
+    exists a, sigalg = Some a /\ In a spec_allowed.
+  Proof.
+    unfold loads_redirect_c. destruct sigalg as [a|]; [|discriminate]. destruct signature as [sp|]; [|discriminate].
+    destruct (do_redirect_sig_check_c _ _ _ _ _) as [[|]|] eqn:E; try discriminate. intros _.
+    destruct (check_c_alg_allowed _ _ _ E) as [a' [Ha Hin]]. cbn in Ha. injection Ha as <-.
+    exists a. split; [reflexivity|exact Hin].
+  Qed.
+
   (* ---------------------------------------------------------------- the receiving entry point binds PRESENCE
      (strengthening round 4).  Server.parse_authn_request / Entity.parse_logout_request hand relay_state, sigalg,
      signature to Request._loads unchanged (Entity._parse_request), and _loads tests `relay_state is not None`:
@@ -1063,7 +1123,7 @@ Section Reflect.
         * apply Hn. apply mem_In. exact H.
         * apply vres_true_iff in Hv. rewrite Hv in H. discriminate.
       + intros H. destruct (get (q x) K_ALG) as [a|] eqn:Ea; [|reflexivity].
-        destruct (mem a (map fst signer_algs)) eqn:Em; [reflexivity|]. cbn [orb].
+        destruct (mem a spec_allowed) eqn:Em; [reflexivity|]. cbn [orb].
         destruct (vres_eqb (snd o) VTrue) eqn:Ev; [|reflexivity]. exfalso.
         apply (H a eq_refl); [|apply vres_true_iff; exact Ev].
         intros Hs. apply mem_In in Hs. congruence.
